@@ -372,9 +372,9 @@ Section Rel.
     induction 1; cbn; [constructor|]. apply Forall2_app; [assumption|]. constructor; [assumption|constructor].
   Qed.
 
-  Lemma rel_statements_loop A (RA : A -> A -> Prop) n stmt stmt' :
+  Lemma rel_statements_loop A (RA : A -> A -> Prop) blk n stmt stmt' :
     Rel RA stmt stmt' -> forall e acc acc', Forall2 RA acc acc' ->
-    Rel (Forall2 RA) (statements_loop n stmt e acc) (statements_loop n stmt' e acc').
+    Rel (Forall2 RA) (statements_loop blk n stmt e acc) (statements_loop blk n stmt' e acc').
   Proof.
     intro Hs. induction n as [|n IH]; intros e acc acc' Hacc; cbn [statements_loop]; [apply rel_diverge|].
     eapply rel_bind; [apply rel_peek|]. intros t0 t0' Ht0. rewrite (f_cmp F _ _ _ (f_cmp_punct F PSemi) Ht0).
@@ -383,12 +383,12 @@ Section Rel.
     rewrite (is_kw_sim (s2l "END") t t' Ht).
     set (e' := if token_eqb (tok t0') (TP PSemi) then false else e).
     assert (G : Rel (Forall2 RA)
-                  (if e' && is_kw (s2l "END") t' then ret (rev acc)
+                  (if blk && e' && is_kw (s2l "END") t' then ret (rev acc)
                    else if e' then expected (s2l "end of statement") t
-                        else a <- stmt ;; statements_loop n stmt true (a :: acc))
-                  (if e' && is_kw (s2l "END") t' then ret (rev acc')
+                        else a <- stmt ;; statements_loop blk n stmt true (a :: acc))
+                  (if blk && e' && is_kw (s2l "END") t' then ret (rev acc')
                    else if e' then expected (s2l "end of statement") t'
-                        else a <- stmt' ;; statements_loop n stmt' true (a :: acc'))).
+                        else a <- stmt' ;; statements_loop blk n stmt' true (a :: acc'))).
     { apply rel_if; [apply rel_ret; apply Forall2_rev; exact Hacc|].
       apply rel_if; [apply rel_expected; exact Ht|].
       eapply rel_bind; [exact Hs|]. intros a a' Ha. apply IH. constructor; assumption. }
